@@ -16,17 +16,27 @@
 (* Only the two unambiguous facts are verdicts; latency outside the window  *)
 (* the escalation model predicts is counted as drift.                       *)
 (***************************************************************************)
-EXTENDS AgentCloseProps, TraceKit
+EXTENDS AgentCloseProps, AgentDialProps, TraceKit
 
 CONSTANT Want
-VARIABLES l, fails, drift, escalated, held, done
-tvars == <<l, fails, drift, escalated, held, done>>
+VARIABLES l, fails, drift, escalated, held, dials, dialdrift, done
+tvars == <<l, fails, drift, escalated, held, dials, dialdrift, done>>
 
 WellFormed(r) == /\ Has(r, "ev") /\ r.ev = "AgentClose" /\ Has(r, "in") /\ Has(r, "out")
                  /\ r.out.returned \in BOOLEAN /\ r.out.alive \in BOOLEAN /\ r.out.ms \in Nat
                  /\ r.in.child \in {"none", "inherit", "own", "dies"} /\ r.in.recv \in BOOLEAN
+\* growth: a real agent.Dial against a scripted transport (see AgentDialProps).  connect() closes the
+\* stream of every failed attempt, so when Dial has returned (and the caller has closed a returned
+\* stream) no process it started may be left: Stream.Close's guarantee seen through the dialer.
+IsDial(r) == Has(r, "ev") /\ r.ev = "Dial" /\ Has(r, "in") /\ Has(r, "out")
+DialFails(i, r) ==
+     Chk(Want, i, "C35_Returns", C35_Returns([returned |-> r.out.returned, alive |-> r.out.alive > 0]))
+  \o Chk(Want, i, "C35_Exited", C35_Exited([returned |-> r.out.returned, alive |-> r.out.alive > 0]))
+DialDrift(r) == ~(r.out.returned /\ ~r.out.offscript /\ Conforms(r.out.steps, r.out.ok) /\ r.out.steps = r.in.steps)
+
 RecFails(i, r) ==
-  IF ~WellFormed(r) THEN <<Fail(i, "TraceAccepted")>>
+  IF IsDial(r) THEN DialFails(i, r)
+  ELSE IF ~WellFormed(r) THEN <<Fail(i, "TraceAccepted")>>
   ELSE Chk(Want, i, "C35_Returns", C35_Returns(r.out))
     \o Chk(Want, i, "C35_Exited", C35_Exited(r.out))
 
@@ -43,17 +53,19 @@ Drift(r) == WellFormed(r) /\ r.out.returned /\ (r.out.ms + 50 < Earliest(r.in) \
 
 \* cases in which a surviving descendant holds the standard error pipe when Close is called
 Held(r) == WellFormed(r) /\ r.in.recv /\ r.in.child = "inherit"
-TInit == l = 1 /\ fails = <<>> /\ drift = 0 /\ escalated = 0 /\ held = 0 /\ done = FALSE
+TInit == l = 1 /\ fails = <<>> /\ drift = 0 /\ escalated = 0 /\ held = 0 /\ dials = 0 /\ dialdrift = 0 /\ done = FALSE
 Step == /\ l <= NRec
         /\ LET r == Trace[l] IN
            /\ fails' = Cap(fails \o RecFails(l, r))
            /\ drift' = drift + (IF Drift(r) THEN 1 ELSE 0)
            /\ escalated' = escalated + (IF WellFormed(r) /\ r.out.sawterm THEN 1 ELSE 0)
            /\ held' = held + (IF Held(r) THEN 1 ELSE 0)
+           /\ dials' = dials + (IF IsDial(r) THEN 1 ELSE 0)
+           /\ dialdrift' = dialdrift + (IF IsDial(r) /\ DialDrift(r) THEN 1 ELSE 0)
         /\ l' = l + 1 /\ UNCHANGED done
 Finish == /\ l = NRec + 1 /\ ~done
-          /\ WriteResult(l - 1, fails, [stat_latency_drift |-> drift, stat_saw_sigterm |-> escalated, stat_descendant_holds_stderr |-> held])
-          /\ done' = TRUE /\ UNCHANGED <<l, fails, drift, escalated, held>>
+          /\ WriteResult(l - 1, fails, [stat_latency_drift |-> drift, stat_saw_sigterm |-> escalated, stat_descendant_holds_stderr |-> held, stat_dials |-> dials, stat_dial_drift |-> dialdrift])
+          /\ done' = TRUE /\ UNCHANGED <<l, fails, drift, escalated, held, dials, dialdrift>>
 TNext == Step \/ Finish
 TSpec == TInit /\ [][TNext]_tvars
 ====
